@@ -36,6 +36,7 @@ Print Assumptions C16_element_meaning.
 Theorem C16_hypothesis_satisfiable :
   Forall safe_kp [KIndex (-7); KName [110; 97; 109; 101]; KQuoted [113; 32; 110]; KIndex 0].
 Proof. exact key_paths_roundtrip_example. Qed.
+Print Assumptions C16_hypothesis_satisfiable.
 
 (* ---- the documented syntax, as a grammar (KeyPathGrammar.v, written from the property text and key_path.txt):
         ws "{" ws element ws *( "," ws element ws ) "}" ws   |   ws "{" ws "}" ws
